@@ -19,6 +19,7 @@ mod c_diag;
 mod c_unify;
 mod c_ctx;
 mod c_rewrite;
+mod c_work;
 
 fn main() {
     colored::control::set_override(false);
@@ -39,11 +40,13 @@ fn main() {
         "record-unify" => c_unify::record(rest),
         "record-ctx" => c_ctx::record(rest),
         "replay-rewrite" => c_rewrite::replay(rest),
+        "record-work" => c_work::record(rest),
         "replay-listing" => c_diag::replay_listing(rest),
         "plant-scope" => c_diag::plant_scope(rest),
         "plant-type" => c_diag::plant_type(rest),
         "replay-scope" => c_scope::replay(rest),
         "replay-parse" => c_parse::replay(rest),
+        "repeat-parse" => c_parse::repeat_parse(rest),
         "gen-programs" => c_gen::main(rest),
         "parse-hosts" => c_gen::parse_hosts(rest),
         "record-pipeline" => c_pipe::record(rest),
@@ -55,6 +58,7 @@ fn main() {
             "unify" => c_unify::worker(),
             "ctx" => c_ctx::worker(),
             "rewrite" => c_rewrite::worker(),
+            "work" => c_work::worker(),
             "plant-type" => c_diag::plant_type_worker(),
             k => {
                 eprintln!("unknown worker kind {k}");
